@@ -156,7 +156,7 @@ const c02NArgLists = 7
 func c02PairVals() []Val {
 	var r []Val
 	want := map[string]bool{"int": true, "stringLF": true, "float64": true, "[]byte": true, "[]interface{}": true, "struct": true, "Stringer": true, "error": true, "safeT": true, "panic String(str)": true, "nil": true, "map[string]int": true, "Formatter": true, "bool": true,
-		"stringEmpty": true, "Safe(str)": true, "Unsafe(safeT)": true, "RedactableString": true, "SafeFormatter": true, "[]iface{Safe,unsafe,Redactable}": true, "*int": true}
+		"stringEmpty": true, "Safe(str)": true, "Unsafe(safeT)": true, "RedactableString": true, "SafeFormatter": true, "[]iface{Safe,unsafe,Redactable}": true, "*int": true, "Safe(nil)": true}
 	for _, v := range universe() {
 		if want[v.Name] {
 			r = append(r, v)
